@@ -149,6 +149,42 @@ theorem http_header_lines_roundtrip (cfg : HttpCfg) (ls : List Bytes) (r r' : Ht
   | none => rfl
   | some h => rfl
 
+/-- **HTTP folded header round trip** (obs-fold = CRLF 1*(SP / HTAB), over the generated `parser::step()`):
+a header whose value is continued on lines that start with a space **or a horizontal tab** is reported with
+the unfolded value in `header_` — normalisation the code really applies: the CRLF of every fold is dropped, the
+blank/tab that starts the continuation line is kept (RFC 7230 would allow replacing it by one SP) — and the
+look-ahead byte is pushed back.  A parser that does not treat HTAB (or SP) as a fold breaks this theorem. -/
+theorem http_folded_header_roundtrip (l : FLine) (hl : WFLine l) (c : UInt8) (hc : c ≠ 32 ∧ c ≠ 9) (rest : Bytes)
+    (ps : Gen.PState) (hs : ps.state = Gen.ps_idle) (hu : ps.under = false) (hg : ps.unget = false) :
+    parserRun ps (l.wire ++ 13 :: 10 :: c :: rest) =
+      (Gen.pr_got_header, { ps with state := Gen.ps_idle, rhdr := (natsOf l.value).reverse }, c :: rest) :=
+  parserRun_fline l hl c hc rest ps hs hu hg
+
+/-- header section with folded headers (any number of folds in any number of headers; with
+`http_buffer_eq_stream`: folds split across segments anywhere): every header reaches the per-header code with
+its unfolded value, in order; then `process_request`; the body is left unread. -/
+theorem http_folded_lines_roundtrip (cfg : HttpCfg) (ls : List FLine) (r r' : HttpReq) (body : Bytes)
+    (hw : ∀ l ∈ ls, WFLine l) (hs : r.ps.state = Gen.ps_idle) (hu : r.ps.under = false) (hg : r.ps.unget = false)
+    (hf : feedLines r (ls.map FLine.value) = some r') :
+    hdrFlat cfg r (encFLines ls ++ body) =
+      (match httpProcess cfg { r' with ps := { r'.ps with state := Gen.ps_last_lf_exptected, rhdr := [] } } with
+       | none => (.done .raw400, body)
+       | some h => (.head h r'.is11, body)) := by
+  unfold hdrFlat
+  rw [hdrLoopC_flines cfg ls r r' body hw hs hu hg hf]
+  cases httpProcess cfg { r' with ps := { r'.ps with state := Gen.ps_last_lf_exptected, rhdr := [] } } with
+  | none => rfl
+  | some h => rfl
+
+/-- non-vacuity of `WFLine`: `A: x,` CRLF HTAB `y` CRLF SP `z` (a TAB fold and a SP fold) -/
+example : WFLine { head := [65, 58, 32, 120, 44], tail := [[9, 121], [32, 122]] } :=
+  ⟨⟨by decide, by decide, by decide⟩, by
+    intro p hp
+    simp at hp
+    rcases hp with rfl | rfl
+    · exact ⟨by decide, by decide⟩
+    · exact ⟨by decide, by decide⟩⟩
+
 /-- non-vacuity of `PlainLine`: `GET / H` -/
 example : PlainLine [71, 69, 84, 32, 47, 32, 72] := ⟨by decide, by decide, by decide⟩
 
